@@ -73,7 +73,14 @@ func runC01(r *Run) {
 			}
 		}
 	}
+	// slab sizes whose index-slab fan-out is EVEN (256, 512, 1024 and every power of two give an odd one): the
+	// index-slab split point, three levels
+	for _, T := range []uint32{260, 300} {
+		ts = append(ts, TrajSpecs(r.ID, "arr-append-lim", 110, 50, 111, 6, 1, T, cls, tor)...)
+	}
 	r.ExploreSpecs(ts)
+	// magnitudes: 70 000 elements (counts beyond 65 535), four-level trees, collapse back to a lone root
+	r.RunTaskGroup("arrays of 70 000 tiny / 4 000 limit-sized elements: build, probe, reopen, drain to empty", "bigtree", bigTreeArgs("arr-tiny", "arr-lim"))
 	// many inlined children in one slab (possible at the larger legal slab sizes only): build, commit, reopen
 	r.RunTaskGroup("containers with 200-300 inlined children in one slab (slab sizes 8192, 32768)", "manykids", manyKidsArgs("C01"))
 }
